@@ -6,12 +6,19 @@ Thin static rules (DESIGN.md §C20); that the output *is* the DFT is not decidab
                every libfft call, and the output buffer is allocated with self._outshape
  ffi           the libfft call sites of fft_plan.py conform to the C prototypes; restype is set for
                every pointer-returning function whose result is used
- layout        frozen C layout table: stride/idist/odist per batch_first; write_fft_input and
-               read_fft_output use the same padded row variables, row length 2*(dm1/2+1)*nt, mirrored copies
- shape-table   _inshape/_outshape for the 8 combinations of (r2c, batch_first, fwd) equal the frozen
-               decision table (r2c halves only the last axis, batch axis first/last, fwd/bwd swap), and
-               the table agrees with the branches of allocate_fftnd_plan (fft_in_size / fft_out_size)
-               and with the element types read_fft_output / write_fft_input copy
+ shape-table   _inshape/_outshape for the 8 combinations of (r2c, batch_first, fwd) equal the decision
+               table (r2c halves only the last axis, batch axis first/last, fwd/bwd swap); values are
+               integer polynomials, so equivalent spellings of a dimension compare equal
+ layout        allocate_fftnd_plan, malloc_fft_plan_*_array, write_fft_input and read_fft_output are
+               *evaluated* (sa.cpoly: concrete flags and rank 3, polynomial sizes, C `/` opaque unless
+               exact) for all 16 flag configurations; decided identities, none of them textual:
+               ntransform*fft_in/out_size == element count of the python in/out shape (in-place real side
+               == 2 x complex side); (nt-1)*dist + (size-1)*stride + 1 == nt*size for idist and odist;
+               each copy addresses exactly [0, python element count) of the caller's array and exactly
+               the allocated plan buffer (padded: rows * padded row == allocation); element types of
+               the copies == real/complex side of the plan == dtype FFTWrapper.call allocates; dense row ==
+               last axis * plan stride; padded/dense row ratio == the plan's own in-place/out-of-place
+               real size ratio; write and read use equal padded and dense row polynomials
 """
 import ast
 import itertools
@@ -20,7 +27,7 @@ import re
 import sys
 
 sys.path.insert(0, os.path.dirname(os.path.dirname(os.path.abspath(__file__))))
-from sa import core, pyfacts as pf, cfg as cfgm, cfacts, ffi  # noqa: E402
+from sa import core, pyfacts as pf, cfg as cfgm, cfacts, ffi, cpoly  # noqa: E402
 from sa.selftest import Mutant  # noqa: E402
 
 PROP = "C20"
@@ -38,15 +45,41 @@ def rule_shape_guard(chk, eng, mod):
         raise core.AnalysisError("FFTWrapper.call takes no input array")
     x = params[0]
 
+    # names of the advertised input shape: the attribute and properties that return it
+    cls = mod.cls("FFTWrapper")
+    in_names = {"self._inshape"}
+    for nm, m_ in pf.methods(cls).items():
+        if any(pf.src(d) == "property" for d in m_.decorator_list):
+            rets = [n for n in pf.walk_no_nested(m_) if isinstance(n, ast.Return)]
+            if len(rets) == 1 and pf.src(rets[0].value) == "self._inshape":
+                in_names.add("self." + nm)
+    x_names = {"%s.shape" % x, "tuple(%s.shape)" % x, "np.shape(%s)" % x}
+
+    def shape_cmp(t):
+        """-> True if t holds exactly when the shapes are equal, False if exactly when they differ, else None"""
+        if isinstance(t, ast.UnaryOp) and isinstance(t.op, ast.Not):
+            r = shape_cmp(t.operand)
+            return None if r is None else not r
+        if isinstance(t, ast.Compare) and len(t.ops) == 1 and isinstance(t.ops[0], (ast.Eq, ast.NotEq)):
+            a, b = pf.src(t.left), pf.src(t.comparators[0])
+            a = a[6:-1] if a.startswith("tuple(self.") else a
+            b = b[6:-1] if b.startswith("tuple(self.") else b
+            if (a in x_names and b in in_names) or (b in x_names and a in in_names):
+                return isinstance(t.ops[0], ast.Eq)
+        return None
+
     def is_guard(nd):
         a = nd.ast
-        if nd.kind != "test" or not isinstance(a, ast.If) or not cfgm._raises(a.body) or a.orelse:
+        if nd.kind == "stmt" and isinstance(a, ast.Assert):
+            return shape_cmp(a.test) is True
+        if nd.kind != "test" or not isinstance(a, ast.If):
             return False
-        t = a.test
-        if not (isinstance(t, ast.Compare) and len(t.ops) == 1 and isinstance(t.ops[0], ast.NotEq)):
-            return False
-        sides = {pf.src(t.left), pf.src(t.comparators[0])}
-        return sides == {"%s.shape" % x, "self._inshape"}
+        r = shape_cmp(a.test)
+        if r is False:
+            return cfgm._raises(a.body)
+        if r is True:
+            return bool(a.orelse) and cfgm._raises(a.orelse)
+        return False
 
     guard_ids = [nd.id for nd in g.nodes if nd.ast is not None and is_guard(nd)]
     inst0 = "FFTWrapper.call: the shape test sees the array as passed (parameter %s not re-bound before it)" % x
@@ -104,13 +137,20 @@ def rule_shape_guard(chk, eng, mod):
 
 
 # ----------------------------------------------------------------------------
-# symbolic evaluation of the shape construction in FFTWrapper.__init__
+# symbolic evaluation of the shape construction in FFTWrapper.__init__ (values are polynomials)
 # ----------------------------------------------------------------------------
+P = cpoly.Poly
+NDIM = 3
+DIMS = [P.atom("d%d" % k) for k in range(NDIM)]
+NT = P.atom("nt")
+
+
 class _Sym:
-    """tiny evaluator over python lists of symbolic dimension strings"""
+    """tiny evaluator over python lists of dimension polynomials; `//` is the same opaque division atom the
+    C evaluator produces for `/`"""
 
     def __init__(self, flags):
-        self.env = {"dims": ["d0", "d1", "dL"], "ntransform": "nt"}
+        self.env = {"dims": list(DIMS), "ntransform": NT}
         self.env.update(flags)
         self.attrs = {}
 
@@ -129,8 +169,14 @@ class _Sym:
                 and isinstance(e.elt, ast.Name) and isinstance(e.generators[0].target, ast.Name) \
                 and e.elt.id == e.generators[0].target.id:
             return list(self.ev(e.generators[0].iter))
-        if isinstance(e, ast.List):
-            return [self.ev(x) for x in e.elts]
+        if isinstance(e, (ast.List, ast.Tuple)):
+            out = []
+            for x in e.elts:
+                if isinstance(x, ast.Starred):
+                    out += list(self.ev(x.value))
+                else:
+                    out.append(self.ev(x))
+            return out
         if isinstance(e, ast.Subscript):
             base = self.ev(e.value)
             if isinstance(e.slice, ast.Slice):
@@ -140,18 +186,37 @@ class _Sym:
             return base[self.ev(e.slice)]
         if isinstance(e, ast.UnaryOp) and isinstance(e.op, ast.USub):
             return -self.ev(e.operand)
+        if isinstance(e, ast.UnaryOp) and isinstance(e.op, ast.Not):
+            return not self.ev(e.operand)
+        if isinstance(e, ast.BoolOp):
+            vals = [bool(self.ev(v)) for v in e.values]
+            return all(vals) if isinstance(e.op, ast.And) else any(vals)
+        if isinstance(e, ast.IfExp):
+            return self.ev(e.body) if self.ev(e.test) else self.ev(e.orelse)
+        if isinstance(e, ast.Attribute) and pf.src(e) in ("np.float64", "np.complex128", "numpy.float64",
+                                                           "numpy.complex128", "np.double", "np.cdouble"):
+            return {"float64": "real", "double": "real"}.get(e.attr, "complex")
         if isinstance(e, ast.BinOp):
             a, b = self.ev(e.left), self.ev(e.right)
             if isinstance(a, list) and isinstance(b, list) and isinstance(e.op, ast.Add):
                 return a + b
-            if isinstance(a, int) and isinstance(b, int):
+            if isinstance(a, int) and isinstance(b, int) and not isinstance(e.op, (ast.FloorDiv, ast.Div)):
                 return {ast.Add: a + b, ast.Sub: a - b, ast.Mult: a * b}.get(type(e.op))
-            op = {ast.Add: "+", ast.Sub: "-", ast.Mult: "*", ast.FloorDiv: "//", ast.Div: "/"}.get(type(e.op))
-            if op is None:
-                raise core.AnalysisError("operator in shape construction: %s" % pf.src(e))
-            return "(%s%s%s)" % (a, op, b)
+            if isinstance(a, (int, P)) and isinstance(b, (int, P)):
+                a, b = cpoly._p(a), cpoly._p(b)
+                if isinstance(e.op, ast.Add):
+                    return a + b
+                if isinstance(e.op, ast.Sub):
+                    return a - b
+                if isinstance(e.op, ast.Mult):
+                    return a * b
+                if isinstance(e.op, ast.FloorDiv):
+                    return cpoly.pdiv(a, b)
+            raise core.AnalysisError("operator in shape construction: %s" % pf.src(e))
         if isinstance(e, ast.Call) and pf.call_name(e) in ("tuple", "list") and len(e.args) == 1:
             return list(self.ev(e.args[0]))
+        if isinstance(e, ast.Call) and pf.call_name(e) == "len" and len(e.args) == 1:
+            return len(self.ev(e.args[0]))
         raise core.AnalysisError("expression in shape construction not modelled: %s" % pf.src(e))
 
     def run(self, stmts):
@@ -191,262 +256,239 @@ class _Sym:
 
 
 def expected_shapes(r2c, batch_first, fwd):
-    real = ["d0", "d1", "dL"]
-    recip = ["d0", "d1", "((dL//2)+1)"] if r2c else list(real)
+    real = list(DIMS)
+    recip = (DIMS[:-1] + [cpoly.pdiv(DIMS[-1], 2) + 1]) if r2c else list(real)
     for s in (real, recip):
         if batch_first:
-            s.insert(0, "nt")
+            s.insert(0, NT)
         else:
-            s.append("nt")
+            s.append(NT)
     return (real, recip) if fwd else (recip, real)
 
 
-def c_size_table(tu):
-    """{(r2c, fwd): (in_var, out_var)} from the branches of allocate_fftnd_plan + defining texts"""
-    body = tu.body("allocate_fftnd_plan")
-    if body is None:
-        raise core.AnalysisError("allocate_fftnd_plan has no body")
-    table = {}
-
-    def cond_name(ifn):
-        c = cfacts.strip(cfacts.kids(ifn)[0])
-        if c.get("kind") == "DeclRefExpr":
-            return c["referencedDecl"]["name"]
-        return None
-
-    def assigns(block, conds):
-        for n in cfacts.kids(block):
-            if n.get("kind") == "IfStmt":
-                k = cfacts.kids(n)
-                nm = cond_name(n)
-                if nm in ("r2c", "fwd"):
-                    assigns(k[1], dict(conds, **{nm: True}))
-                    if len(k) > 2:
-                        assigns(k[2], dict(conds, **{nm: False}))
-                    continue
-            if n.get("kind") == "BinaryOperator" and n.get("opcode") == "=":
-                k = cfacts.kids(n)
-                lhs = tu.text_of(k[0]).replace(" ", "")
-                if lhs in ("plan->fft_in_size", "plan->fft_out_size"):
-                    rhs = tu.text_of(cfacts.strip(k[1])).strip()
-                    for fwd in ([conds["fwd"]] if "fwd" in conds else [True, False]):
-                        key = (conds.get("r2c"), fwd)
-                        ent = table.setdefault(key, {})
-                        ent[lhs.split("->")[1]] = rhs
-            if n.get("kind") in ("CompoundStmt",):
-                assigns(n, conds)
-
-    assigns(body, {})
-    return table
+def _prod(xs):
+    out = P.const(1)
+    for x in xs:
+        out = out * cpoly._p(x)
+    return out
 
 
-def body_of(tu):
-    b = tu.body("allocate_fftnd_plan")
-    if b is None:
-        raise core.AnalysisError("allocate_fftnd_plan has no body")
-    return b
-
-
-def rule_shape_table(chk, tree, mod):
+def python_side(mod):
+    """-> {(r2c, bf, fwd): (inshape, outshape, out element type)} evaluated from fft_plan.py"""
     init = mod.func("FFTWrapper.__init__")
+    call = mod.func("FFTWrapper.call")
     pnames = [a.arg for a in init.args.args[1:]]
     for need in ("dims", "ntransform", "fwd", "r2c", "batch_first"):
         if need not in pnames:
             raise core.AnalysisError("FFTWrapper.__init__ lost its parameter %s" % need)
-    got = {}
+    dt = [n for n in pf.walk_no_nested(call) if isinstance(n, ast.Call) and pf.call_name(n) in ("np.empty", "np.zeros")]
+    out = {}
     for r2c, bf, fwd in itertools.product([True, False], repeat=3):
         sym = _Sym({"fwd": fwd, "r2c": r2c, "batch_first": bf, "inplace": False})
         sym.run(init.body)
         if "_inshape" not in sym.attrs or "_outshape" not in sym.attrs:
             raise core.AnalysisError("FFTWrapper.__init__ does not assign _inshape/_outshape")
-        got[(r2c, bf, fwd)] = (sym.attrs["_inshape"], sym.attrs["_outshape"])
+        # element type of the output buffer allocated by call()
+        s2 = _Sym({})
+        s2.attrs = dict(sym.attrs)
+        et = None
+        for st in call.body:
+            if isinstance(st, ast.Assign) and len(st.targets) == 1 and isinstance(st.targets[0], ast.Name) \
+                    and st.targets[0].id == "dtype":
+                s2.env["dtype"] = s2.ev(st.value)
+        if len(dt) == 1:
+            kw = [k.value for k in dt[0].keywords if k.arg == "dtype"]
+            if kw:
+                et = s2.ev(kw[0])
+            else:
+                et = "real"  # numpy default float64
+        if et not in ("real", "complex"):
+            raise core.AnalysisError("FFTWrapper.call: element type of the output buffer not recognised")
+        out[(r2c, bf, fwd)] = (list(sym.attrs["_inshape"]), list(sym.attrs["_outshape"]), et)
+    return out
+
+
+def rule_shape_table(chk, tree, mod):
+    py = python_side(mod)
+    init = mod.func("FFTWrapper.__init__")
+    for (r2c, bf, fwd), (ins, outs, _) in sorted(py.items(), reverse=True):
         want = expected_shapes(r2c, bf, fwd)
         inst = "FFTWrapper shapes for r2c=%s batch_first=%s fwd=%s" % (r2c, bf, fwd)
-        if (list(got[(r2c, bf, fwd)][0]), list(got[(r2c, bf, fwd)][1])) == (want[0], want[1]):
+        if (ins, outs) == (want[0], want[1]):
             chk.ok("shape-table", inst)
         else:
             chk.violation("shape-table", FP, "FFTWrapper.__init__", "shapes r2c=%s batch_first=%s fwd=%s" % (r2c, bf, fwd),
                           init.lineno, "_inshape/_outshape = %s / %s, the decision table (real dims; last axis "
                           "dL//2+1 on the reciprocal side iff r2c; batch axis %s; in/out swapped iff not fwd) "
-                          "gives %s / %s" % (got[(r2c, bf, fwd)][0], got[(r2c, bf, fwd)][1],
-                                             "first" if bf else "last", want[0], want[1]), instance=inst)
-    # C side: which of real/recip the plan calls input/output, and how the two sizes are defined
-    tu = cfacts.TU(tree, CF)
-    table = c_size_table(tu)
-    want_c = {(True, True): ("real_dist", "recip_dist"), (True, False): ("recip_dist", "real_dist"),
-              (False, True): ("dist", "dist"), (False, False): ("dist", "dist")}
-    for key, (wi, wo) in sorted(want_c.items(), reverse=True):
-        ent = table.get(key, {})
-        inst = "allocate_fftnd_plan sizes for r2c=%s fwd=%s" % key
-        if ent.get("fft_in_size") == wi and ent.get("fft_out_size") == wo:
-            chk.ok("shape-table", inst)
-        else:
-            chk.violation("shape-table", CFULL, "allocate_fftnd_plan", "fft_in_size/fft_out_size r2c=%s fwd=%s" % key,
-                          tu.line_of(tu.func("allocate_fftnd_plan")),
-                          "the C plan uses in=%s out=%s where the Python shapes (and the frozen table) need in=%s "
-                          "out=%s" % (ent.get("fft_in_size"), ent.get("fft_out_size"), wi, wo), instance=inst)
-    fdecl = tu.func("allocate_fftnd_plan")
-    fline = tu.line_of(fdecl)
-    # size definitions, resolved through the AST (loop variable names / types do not matter)
-    inits, loops = {}, {}
-    for n in cfacts.walk(body_of(tu)):
-        if n.get("kind") == "BinaryOperator" and n.get("opcode") == "=":
-            k = cfacts.kids(n)
-            lhs = re.sub(r"\s+", "", tu.text_of(k[0]))
-            if lhs in ("recip_dist", "real_dist", "dist"):
-                inits.setdefault(lhs, []).append(re.sub(r"\s+", "", tu.text_of(cfacts.strip(k[1]))))
-        if n.get("kind") == "VarDecl" and n.get("name") in ("recip_dist", "real_dist", "dist") and cfacts.kids(n):
-            inits.setdefault(n["name"], []).append(re.sub(r"\s+", "", tu.text_of(cfacts.strip(cfacts.kids(n)[0]))))
-        if n.get("kind") == "ForStmt":
-            k = [c for c in (n.get("inner") or []) if isinstance(c, dict)]
-            var = None
-            for x in cfacts.walk(n):
-                if x.get("kind") == "VarDecl":
-                    var = x.get("name")
-                    break
-            if var is None or len(k) < 5:
-                continue
-            cond = re.sub(r"\s+", "", tu.text_of(k[2])) if k[2].get("kind") else ""
-            for x in cfacts.walk(k[-1]):
-                if x.get("kind") == "CompoundAssignOperator" and x.get("opcode") == "*=":
-                    kk = cfacts.kids(x)
-                    acc = re.sub(r"\s+", "", tu.text_of(kk[0]))
-                    rhs = re.sub(r"\s+", "", tu.text_of(cfacts.strip(kk[1])))
-                    loops.setdefault(acc, []).append((re.sub(r"\b%s\b" % re.escape(var), "$", cond),
-                                                      re.sub(r"\b%s\b" % re.escape(var), "$", rhs)))
-    want_defs = [
-        ("recip_dist", "init", "dims[ndim-1]/2+1", "reciprocal size starts from dims[ndim-1]/2+1 (only the last axis is halved)"),
-        ("recip_dist", "loop", ("$<ndim-1", "dims[$]"), "reciprocal size multiplies the other ndim-1 axes unhalved"),
-        ("real_dist", "loop", ("$<ndim", "dims[$]"), "out-of-place real size is the product of all dims"),
-        ("dist", "loop", ("$<ndim", "dims[$]"), "complex size is the product of all dims"),
-    ]
-    for acc, kind, want, what in want_defs:
-        inst = "allocate_fftnd_plan: " + what
-        have = inits.get(acc, []) if kind == "init" else loops.get(acc, [])
-        if not have:
-            raise core.AnalysisError("allocate_fftnd_plan: no %s of `%s` found (the size computation was restructured)"
-                                     % ("assignment" if kind == "init" else "product loop", acc))
-        if want in have:
-            chk.ok("shape-table", inst)
-        else:
-            chk.violation("shape-table", CFULL, "allocate_fftnd_plan", what, fline,
-                          "`%s` is %s %s; the Python shape table needs %s: %s"
-                          % (acc, "assigned" if kind == "init" else "accumulated by", have, want, what), instance=inst)
-    # element types: python allocates float64 output iff (r2c and not fwd); C copies doubles on the same condition
-    call = mod.func("FFTWrapper.call")
-    dt = [n for n in pf.walk_no_nested(call) if isinstance(n, ast.Assign) and len(n.targets) == 1
-          and isinstance(n.targets[0], ast.Name) and n.targets[0].id == "dtype"]
-    inst = "output dtype float64 iff (r2c and not fwd), matching read_fft_output"
-    ok_py = len(dt) == 1 and isinstance(dt[0].value, ast.IfExp) \
-        and pf.src(dt[0].value.test).replace("(", "").replace(")", "") == "self._r2c and not self._fwd" \
-        and pf.src(dt[0].value.body).endswith("float64") and pf.src(dt[0].value.orelse).endswith("complex128")
-    rd = re.sub(r"\s+", "", tu.text_of(tu.func("read_fft_output")))
-    wr = re.sub(r"\s+", "", tu.text_of(tu.func("write_fft_input")))
-    ok_c = "if(plan->r2c&&(!plan->fwd)){double*src" in rd and "if(plan->r2c&&plan->fwd){double*src" in wr
-    if ok_py and ok_c:
-        chk.ok("shape-table", inst)
-    else:
-        chk.violation("shape-table", FP if not ok_py else CFULL, "FFTWrapper.call" if not ok_py else "read_fft_output",
-                      "dtype of the output buffer", call.lineno,
-                      "python side %s; C side %s: the output buffer must hold doubles exactly when read_fft_output "
-                      "copies doubles (r2c backward), complex otherwise"
-                      % ("ok" if ok_py else "changed: " + (pf.src(dt[0].value) if dt else "no dtype assignment"),
-                         "ok" if ok_c else "condition of the real branch changed"), instance=inst)
+                          "gives %s / %s" % (ins, outs, "first" if bf else "last", want[0], want[1]), instance=inst)
 
 
-def _norm(t):
-    return re.sub(r"\s+", "", t)
+# ----------------------------------------------------------------------------
+# C plan: evaluated, not pattern-matched
+# ----------------------------------------------------------------------------
+def _elem(ctype):
+    t = ctype.replace("const", "").replace(" ", "")
+    if t in ("double*",):
+        return "real"
+    if t in ("_Complexdouble*", "doublecomplex*", "double_Complex*", "fftw_complex*"):
+        return "complex"
+    return None
 
 
-def _var_inits(tu, fname, names):
-    out = {}
-    for n in cfacts.walk(tu.body(fname)):
-        if n.get("kind") == "VarDecl" and n.get("name") in names and cfacts.kids(n):
-            out.setdefault(n["name"], []).append(_norm(tu.text_of(cfacts.strip(cfacts.kids(n)[0]))))
-    return out
+def _sizeof(kind):
+    # number of doubles per element: comparisons are made in units of doubles
+    return 1 if kind == "real" else 2
 
 
-def _assign_texts(tu, node):
-    out = []
-    for n in cfacts.walk(node):
-        if n.get("kind") == "BinaryOperator" and n.get("opcode") == "=":
-            k = cfacts.kids(n)
-            out.append((_norm(tu.text_of(k[0])), _norm(tu.text_of(cfacts.strip(k[1])))))
-    return out
-
-
-def rule_layout(chk, tree):
-    """frozen layout table of the C plan: batch stride/dist selection, and the padded in-place real rows that
-    write_fft_input and read_fft_output must agree on (2 * reciprocal last-axis length doubles per row)"""
-    tu = cfacts.TU(tree, CF)
-    fline = tu.line_of(tu.func("allocate_fftnd_plan"))
-    got = {}
-    for n in cfacts.walk(body_of(tu)):
-        if n.get("kind") == "IfStmt":
-            k = cfacts.kids(n)
-            c = cfacts.strip(k[0])
-            if c.get("kind") == "DeclRefExpr" and c["referencedDecl"]["name"] == "batch_first" and len(k) > 2:
-                got[True] = dict(_assign_texts(tu, k[1]))
-                got[False] = dict(_assign_texts(tu, k[2]))
-    if not got:
-        raise core.AnalysisError("allocate_fftnd_plan: no `if (batch_first) ... else ...` selecting stride/idist/odist")
-    want = {True: {"stride": "1", "idist": "plan->fft_in_size", "odist": "plan->fft_out_size"},
-            False: {"stride": "ntransform", "idist": "1", "odist": "1"}}
-    for bf in (True, False):
-        for var, w in sorted(want[bf].items()):
-            inst = "allocate_fftnd_plan: %s for batch_first=%s" % (var, bf)
-            h = got[bf].get(var)
-            if h == w:
-                chk.ok("layout", inst)
+def _bytes_in_doubles(poly):
+    """allocation size polynomial with sizeof(double) -> 1 double, sizeof(double complex) -> 2 doubles"""
+    out = poly
+    for a in list(poly.atoms()):
+        if isinstance(a, str) and a.replace(" ", "").startswith("sizeof("):
+            inner = a.replace(" ", "")[len("sizeof("):-1]
+            if inner == "double":
+                out = out.subst(a, P.const(1))
+            elif inner in ("doublecomplex", "double_Complex", "_Complexdouble", "fftw_complex"):
+                out = out.subst(a, P.const(2))
             else:
-                chk.violation("layout", CFULL, "allocate_fftnd_plan", "%s (batch_first=%s)" % (var, bf), fline,
-                              "%s = %s; with the batch index %s, consecutive transforms are %s apart and elements "
-                              "%s apart, i.e. %s = %s" % (var, h, "first" if bf else "last",
-                                                         "fft_in_size/fft_out_size" if bf else "1",
-                                                         "1" if bf else "ntransform", var, w), instance=inst)
-    # padded rows
-    names = ("nt", "dm1", "last_dim", "last_dim1", "blksize")
-    wi, ri = _var_inits(tu, "write_fft_input", names), _var_inits(tu, "read_fft_output", names)
-    recip = None
-    for n in cfacts.walk(body_of(tu)):
-        if n.get("kind") == "BinaryOperator" and n.get("opcode") == "=" and _norm(tu.text_of(cfacts.kids(n)[0])) == "recip_dist":
-            recip = _norm(tu.text_of(cfacts.strip(cfacts.kids(n)[1])))
-            break
-    if recip is None or not all(nm in wi and nm in ri for nm in names):
-        raise core.AnalysisError("write_fft_input/read_fft_output no longer declare %s (padded in-place layout was "
-                                 "restructured)" % ", ".join(names))
-    for nm in names:
-        inst = "write_fft_input / read_fft_output agree on `%s`" % nm
-        if wi[nm] == ri[nm]:
-            chk.ok("layout", inst)
+                raise core.AnalysisError("allocation size uses sizeof(%s)" % inner)
+    return out
+
+
+def c_plan(tu, r2c, inplace, fwd, bf):
+    ev = cpoly.CEval(tu, "allocate_fftnd_plan",
+                     {"ndim": NDIM, "dims": cpoly.ArrayParam("d"), "fwd": int(fwd), "r2c": int(r2c), "ntransform": NT,
+                      "inplace": int(inplace), "batch_first": int(bf)}).run()
+    plan = ev.ret
+    if not isinstance(plan, cpoly.Struct):
+        raise core.AnalysisError("allocate_fftnd_plan does not return the plan object it allocates")
+    for f in ("fft_in_size", "fft_out_size", "stride", "idist", "odist", "ntransform"):
+        if not isinstance(plan.fields.get(f), P):
+            raise core.AnalysisError("allocate_fftnd_plan leaves plan->%s without an integer value" % f)
+    return plan
+
+
+def c_copy(tu, fname, plan):
+    ev = cpoly.CEval(tu, fname, {"plan": plan}).run()
+    if len(ev.copies) != 1:
+        raise core.AnalysisError("%s: %d copy loop nests on the executed path; 1 expected" % (fname, len(ev.copies)))
+    return ev.copies[0]
+
+
+def c_alloc(tu, fname, plan):
+    ev = cpoly.CEval(tu, fname, {"plan": plan}).run()
+    sizes = [a[0] for nm, a in ev.calls if nm == "alloc_fft_array" and a and isinstance(a[0], P)]
+    if len(sizes) != 1:
+        raise core.AnalysisError("%s does not pass one size to alloc_fft_array" % fname)
+    return _bytes_in_doubles(sizes[0])
+
+
+def rule_layout(chk, tree, mod):
+    """Every identity below is between polynomials the code itself computes (3 symbolic axes d0,d1,d2, `nt`
+    transforms, C `/` opaque unless exact): nothing is compared as text."""
+    tu = cfacts.TU(tree, CF)
+    py = python_side(mod)
+    lines = {f: tu.line_of(tu.func(f)) for f in ("allocate_fftnd_plan", "write_fft_input", "read_fft_output")}
+    padded = {}
+
+    def need(cond, rule_inst, fname, construct, msg):
+        if cond:
+            chk.ok("layout", rule_inst)
         else:
-            chk.violation("layout", CFULL, "read_fft_output", "padded-row variable %s" % nm,
-                          tu.line_of(tu.func("read_fft_output")),
-                          "write_fft_input computes %s = %s but read_fft_output computes %s = %s: the two copies "
-                          "address different rows of the same in-place buffer" % (nm, wi[nm], nm, ri[nm]), instance=inst)
-    want_pad = "2*(%s)*nt" % recip.replace("dims[ndim-1]", "dm1")
-    for fname, inits in (("write_fft_input", wi), ("read_fft_output", ri)):
-        inst = "%s: padded row length is 2 x reciprocal last axis" % fname
-        if inits["last_dim1"] == [want_pad] and inits["dm1"] == ["plan->dims[plan->ndim-1]"]:
-            chk.ok("layout", inst)
-        else:
-            chk.violation("layout", CFULL, fname, "last_dim1", tu.line_of(tu.func(fname)),
-                          "last_dim1 = %s with dm1 = %s; the in-place real buffer has 2*(%s) doubles per row "
-                          "(allocate_fftnd_plan: real_dist = recip_dist * 2), i.e. %s"
-                          % (inits["last_dim1"], inits["dm1"], recip, want_pad), instance=inst)
-    # the copy statements mirror each other
-    def copies(fname):
-        return [(l, r) for l, r in _assign_texts(tu, tu.body(fname)) if l.startswith("dst[") and "last_dim" in l + r]
-    wc, rc = copies("write_fft_input"), copies("read_fft_output")
-    inst = "padded copies mirror each other (write: padded <- dense, read: dense <- padded)"
-    if wc == [("dst[i*last_dim1+j]", "src[i*last_dim+j]")] and rc == [("dst[i*last_dim+j]", "src[i*last_dim1+j]")]:
-        chk.ok("layout", inst)
-    elif not wc or not rc:
-        raise core.AnalysisError("padded copy statements not found in write_fft_input/read_fft_output")
-    else:
-        chk.violation("layout", CFULL, "write_fft_input", "padded copy statements", tu.line_of(tu.func("write_fft_input")),
-                      "write copies %s, read copies %s; expected dst[i*last_dim1+j] = src[i*last_dim+j] and its mirror"
-                      % (wc, rc), instance=inst)
+            chk.violation("layout", CFULL, fname, construct, lines.get(fname, 0), msg, instance=rule_inst)
+
+    for r2c, inplace, fwd, bf in itertools.product([True, False], repeat=4):
+        cfgs = "r2c=%d inplace=%d fwd=%d batch_first=%d" % (r2c, inplace, fwd, bf)
+        ins, outs, py_out_et = py[(r2c, bf, fwd)]
+        n_in, n_out = _prod(ins), _prod(outs)
+        plan = c_plan(tu, r2c, inplace, fwd, bf)
+        F = plan.fields
+        nt_c = F["ntransform"]
+        in_real = r2c and fwd
+        out_real = r2c and not fwd
+        # (1) sizes the plan computes vs the shapes the wrapper advertises
+        for side, size, n_py, is_real in (("in", F["fft_in_size"], n_in, in_real), ("out", F["fft_out_size"], n_out, out_real)):
+            inst = "plan fft_%s_size vs python %s-shape [%s]" % (side, side, cfgs)
+            if inplace and is_real:
+                other = F["fft_out_size"] if side == "in" else F["fft_in_size"]
+                need(size == other * 2, inst, "allocate_fftnd_plan", "fft_%s_size (%s)" % (side, cfgs),
+                     "in-place real side holds %r doubles per transform; the complex side holds %r elements: the real "
+                     "side must be exactly twice that (padded rows)" % (size, other))
+            else:
+                need(nt_c * size == n_py, inst, "allocate_fftnd_plan", "fft_%s_size (%s)" % (side, cfgs),
+                     "ntransform * fft_%s_size = %r but the python %sput shape %s has %r elements"
+                     % (side, nt_c * size, side, ins if side == "in" else outs, n_py))
+        # (2) stride / dist: the index map (t, k) -> t*dist + k*stride is onto [0, nt*size)
+        for side, dist, size in (("idist", F["idist"], F["fft_in_size"]), ("odist", F["odist"], F["fft_out_size"])):
+            inst = "plan %s/stride tile the buffer [%s]" % (side, cfgs)
+            top = (nt_c - 1) * dist + (size - 1) * F["stride"] + 1
+            need(top == nt_c * size, inst, "allocate_fftnd_plan", "%s, stride (%s)" % (side, cfgs),
+                 "with %s = %r and stride = %r the last element of the last transform is at %r, but the buffer "
+                 "holds ntransform * size = %r elements" % (side, dist, F["stride"], top - 1, nt_c * size))
+        # (3) allocation sizes (in doubles)
+        a_in = c_alloc(tu, "malloc_fft_plan_in_array", plan)
+        a_out = a_in if inplace else c_alloc(tu, "malloc_fft_plan_out_array", plan)
+        # (4) copies
+        for fname, caller_n, buf, buf_real in (("write_fft_input", n_in, a_in, in_real),
+                                               ("read_fft_output", n_out, a_out, out_real)):
+            cp = c_copy(tu, fname, plan)
+            caller_idx, buf_idx = (cp.src, cp.dst) if fname == "write_fft_input" else (cp.dst, cp.src)
+            caller_t, buf_t = (cp.src_type, cp.dst_type) if fname == "write_fft_input" else (cp.dst_type, cp.src_type)
+            ek, bk = _elem(caller_t), _elem(buf_t)
+            if ek is None or bk is None:
+                raise core.AnalysisError("%s: element types `%s` / `%s` not recognised" % (fname, caller_t, buf_t))
+            inst = "%s element types [%s]" % (fname, cfgs)
+            want_k = "real" if buf_real else "complex"
+            ok_t = ek == bk == want_k and (fname != "read_fft_output" or py_out_et == ek)
+            need(ok_t, inst, fname, "element types (%s)" % cfgs,
+                 "copies %s elements from/to a %s buffer; the plan side is %s%s"
+                 % (ek, bk, want_k, "" if fname != "read_fft_output" else " and FFTWrapper.call allocates a %s output" % py_out_et))
+            ext = cp.extent(caller_idx)
+            inst = "%s touches exactly the caller's array [%s]" % (fname, cfgs)
+            need(ext is not None and ext == caller_n, inst, fname, "extent in the caller's array (%s)" % cfgs,
+                 "the copy addresses elements [0, %r) of the caller's array, whose shape has %r elements"
+                 % (ext, caller_n))
+            inst = "%s stays inside the plan buffer [%s]" % (fname, cfgs)
+            if len(cp.loops) == 1:
+                bext = cp.extent(buf_idx)
+                need(bext is not None and bext * _sizeof(bk) == buf, inst, fname, "extent in the plan buffer (%s)" % cfgs,
+                     "the copy addresses %r %s elements of the plan buffer; the allocation holds %r doubles"
+                     % (bext, bk, buf))
+            elif len(cp.loops) == 2:
+                (vo, rows), (vi, inner) = cp.loops
+                Pd, Dd = cp.stride(buf_idx, vo), cp.stride(caller_idx, vo)
+                lin = Pd is not None and Dd is not None and cp.stride(buf_idx, vi) == P.const(1) \
+                    and cp.stride(caller_idx, vi) == P.const(1)
+                need(lin and rows * Pd * _sizeof(bk) == buf, inst, fname, "padded rows (%s)" % cfgs,
+                     "%r rows of stride %r %s elements = %r; the allocation holds %r doubles"
+                     % (rows, Pd, bk, None if not lin else rows * Pd, buf))
+                if lin:
+                    padded[(fname, bf)] = (Pd, Dd, inner, plan, cfgs)
+                    inst = "%s dense row = last axis x plan stride [%s]" % (fname, cfgs)
+                    last = plan.arrays.get("dims", {}).get(NDIM - 1)
+                    need(isinstance(last, P) and Dd == last * F["stride"] and inner == Dd, inst, fname,
+                         "dense row length (%s)" % cfgs,
+                         "rows of the caller's array are %r long (inner loop %r); the plan transforms the last axis "
+                         "%r with element stride %r" % (Dd, inner, last, F["stride"]))
+                    # padded / dense row ratio equals the plan's own in-place / out-of-place real size ratio
+                    dense_plan = c_plan(tu, r2c, False, fwd, bf)
+                    real_dense = dense_plan.fields["fft_in_size" if fwd else "fft_out_size"]
+                    real_padded = F["fft_in_size" if fwd else "fft_out_size"]
+                    inst = "%s padded row length follows the plan's padded real size [%s]" % (fname, cfgs)
+                    need(Pd * real_dense == Dd * real_padded, inst, fname, "padded row length (%s)" % cfgs,
+                         "padded/dense row = %r / %r but the plan's in-place/out-of-place real sizes are %r / %r"
+                         % (Pd, Dd, real_padded, real_dense))
+            else:
+                raise core.AnalysisError("%s: copy nest of depth %d" % (fname, len(cp.loops)))
+    # (5) the two padded copies agree with each other
+    for bf in (True, False):
+        w, r = padded.get(("write_fft_input", bf)), padded.get(("read_fft_output", bf))
+        if w is None or r is None:
+            raise core.AnalysisError("no padded in-place copy found for batch_first=%s in write_fft_input/read_fft_output" % bf)
+        inst = "write_fft_input / read_fft_output use the same padded and dense row lengths [batch_first=%d]" % bf
+        need(w[0] == r[0] and w[1] == r[1], inst, "read_fft_output", "padded rows, batch_first=%d" % bf,
+             "write_fft_input lays rows out with padded/dense lengths %r / %r, read_fft_output reads them back with "
+             "%r / %r" % (w[0], w[1], r[0], r[1]))
 
 
 # ----------------------------------------------------------------------------
@@ -454,7 +496,7 @@ def _analyse_own(chk):
     tree = chk.tree
     chk.rule("shape-guard", "the input-shape test dominates every libfft call of FFTWrapper.call; output uses _outshape")
     chk.rule("ffi", "libfft call sites conform to cider_fft.c prototypes; restype for pointer returns")
-    chk.rule("shape-table", "shape construction equals the frozen decision table and the C size branches")
+    chk.rule("shape-table", "shape construction equals the decision table (r2c halves the last axis, batch axis, fwd/bwd swap)")
     mod = pf.Module(tree, FP)
     box = {}
 
@@ -485,12 +527,12 @@ def _analyse_own(chk):
     if "eng" in box:
         chk.guard(rule_shape_guard, box["eng"], mod)
     chk.guard(rule_shape_table, tree, mod)
-    chk.rule("layout", "frozen C layout table: batch stride/dist selection; write/read agree on the padded in-place rows")
-    chk.guard(rule_layout, tree)
-    chk.floor("layout", 14, "6 stride/dist rows + 5 shared variables + 2 pad lengths + copy mirror")
+    chk.rule("layout", "C plan evaluated symbolically: sizes vs python shapes, stride/dist tiling, copies stay inside caller array and plan buffer, padded rows agree")
+    chk.guard(rule_layout, tree, mod)
+    chk.floor("layout", 160, "16 flag configurations x (2 sizes + 2 tilings + 2x3 copy facts) + padded-row facts")
     chk.floor("ffi", 10, "10 libfft call sites in fft_plan.py")
     chk.floor("shape-guard", 5, "3 native calls + output allocation + parameter not re-bound")
-    chk.floor("shape-table", 17, "8 flag combinations + 4 C branch rows + 4 size definitions + dtype")
+    chk.floor("shape-table", 8, "8 flag combinations")
     chk.assumptions += ["x86-64 System V calling convention", "dims has at least one axis; symbolic 3-axis dims stand "
                         "for any rank (the construction never indexes an axis other than the last)"]
     chk.not_decided += ["that the transform computed is the DFT",
@@ -543,11 +585,11 @@ def mutants(tree):
                "            self._inshape = tuple(rshape)\n            self._outshape = tuple(kshape)", expect="shape-table"),
         Mutant("C: forward r2c plan swaps its sizes", CFULL,
                "            plan->fft_in_size = real_dist;\n            plan->fft_out_size = recip_dist;",
-               "            plan->fft_in_size = recip_dist;\n            plan->fft_out_size = real_dist;", expect="shape-table"),
+               "            plan->fft_in_size = recip_dist;\n            plan->fft_out_size = real_dist;", expect="layout"),
         Mutant("C: reciprocal size halves nothing", CFULL, "recip_dist = dims[ndim - 1] / 2 + 1;", "recip_dist = dims[ndim - 1];",
-               expect="shape-table"),
+               expect="layout"),
         Mutant("output dtype real for every r2c plan", FP, "np.float64 if (self._r2c and not self._fwd) else",
-               "np.float64 if self._r2c else", expect="shape-table"),
+               "np.float64 if self._r2c else", expect="layout"),
         Mutant("input reshaped before the shape test", FP, "    def call(self, x):\n",
                "    def call(self, x):\n        x = x.reshape(self._inshape)\n", expect="shape-guard"),
         Mutant("C: read_fft_output uses another padded row length", CFULL,
@@ -558,6 +600,14 @@ def mutants(tree):
         Mutant("C: odist follows idist for in-place plans", CFULL, "        odist = plan->fft_out_size;",
                "        odist = inplace ? idist : plan->fft_out_size;", expect="layout"),
         Mutant("C: batch-last stride is 1", CFULL, "        stride = ntransform;", "        stride = 1;", expect="layout"),
+        Mutant("C: malloc_fft_plan_in_array allocates doubles for every plan", CFULL,
+               "    if (plan->r2c && plan->fwd) {\n        objsize = sizeof(double);\n    } else {\n        objsize = sizeof(double complex);\n    }\n    objsize *= plan->ntransform;\n    objsize *= plan->fft_in_size;",
+               "    objsize = sizeof(double);\n    objsize *= plan->ntransform;\n    objsize *= plan->fft_in_size;", expect="layout"),
+        Mutant("C: write_fft_input copies one row too many", CFULL, "            const size_t blksize = size / last_dim1;",
+               "            const size_t blksize = size / last_dim1 + 1;", count=1, expect="layout"),
+        Mutant("C: out-of-place real size forgets the first axis", CFULL,
+               "            real_dist = 1;\n            for (int i = 0; i < ndim; i++) {", "            real_dist = 1;\n            for (int i = 1; i < ndim; i++) {",
+               expect="layout"),
         Mutant("C: prototype of write_fft_input gains a size argument", CFULL,
                "void write_fft_input(fft_plan_t *plan, void *input) {", "void write_fft_input(fft_plan_t *plan, size_t n, void *input) {",
                expect="ffi"),
